@@ -22,7 +22,8 @@ func init() {
 				return replayFile(*replay, enc)
 			}
 			rng := rand.New(rand.NewSource(*seed))
-			queries := [][]KV{nil, {{"q", lit("1")}}, {{"a", lit("x y")}, {"b", lit("/&=?#%")}}, {{"u", lit("\xc3\xa9\x00\xff")}}, {{"redir", lit("/z")}}}
+			queries := [][]KV{nil, {{"q", lit("1")}}, {{"a", lit("x y")}, {"b", lit("/&=?#%")}}, {{"u", lit("\xc3\xa9\x00\xff")}}, {{"redir", lit("/z")}},
+				{{"return_to", lit("https://x.test/y")}}, {{"x", lit("/../../../logout")}}, {{"p", lit("a/./b//c/")}}, {{"t", lit("/")}}}
 			tails := []string{"page", "a/b", "x.y~z", "sp ace", "q%3F", "\xe2\x82\xac"}
 			id, row := 0, 0
 			for _, api := range []bool{false, true} {
@@ -67,6 +68,7 @@ func init() {
 																continue // no module route requires 2FA
 															}
 															rq = SymReq{Browser: "b1", Method: "GET", Route: route, Query: queries[rng.Intn(len(queries))]}
+															rawLiteral(&rq)
 														} else {
 															arg := "00" + fail + "0000"
 															b := []byte(arg)
@@ -78,6 +80,7 @@ func init() {
 															}
 															rq = SymReq{Browser: "b1", Method: []string{"GET", "POST"}[rng.Intn(2)], Route: "App", Arg: string(b),
 																Path: "/app/" + string(b) + "/" + tails[rng.Intn(len(tails))], Query: queries[rng.Intn(len(queries))]}
+															rawLiteral(&rq)
 														}
 														step := SymStep{Kind: "req", Req: &rq}
 														if storage != "ok" {
@@ -101,6 +104,22 @@ func init() {
 				}
 			}
 			return nil
+		}
+	}
+}
+
+// rawLiteral sends single-parameter queries whose value contains slashes literally (as browsers do)
+func rawLiteral(rq *SymReq) {
+	if len(rq.Query) == 1 && rq.Query[0].V.K == "lit" {
+		v := rq.Query[0].V.V
+		ok := true
+		for _, c := range []byte(v) {
+			if !(c == '/' || c == '.' || c == ':' || (c >= 'a' && c <= 'z') || (c >= '0' && c <= '9')) {
+				ok = false
+			}
+		}
+		if ok && len(v) > 1 {
+			rq.RawQuery = rq.Query[0].K + "=" + v
 		}
 	}
 }
